@@ -252,12 +252,16 @@ func (c *Channel) Invoke(ctx context.Context, method string, req, resp interface
 
 	defer cancel()
 	ch := make(chan frame, 1)
+	// build the server context now: it snapshots the caller's outgoing
+	// metadata, which the caller may re-use once Invoke has returned (and
+	// Invoke can return, on cancellation, before the goroutine below runs)
+	svrCtx := makeServerContext(ctx)
 	go func() {
 		defer func() {
 			sts.Finish()
 			close(ch)
 		}()
-		ctx := grpc.NewContextWithServerTransportStream(makeServerContext(ctx), &sts)
+		ctx := grpc.NewContextWithServerTransportStream(svrCtx, &sts)
 		v, err := md.Handler(handler, ctx, codec, c.unaryInterceptor)
 		if h := sts.GetHeaders(); len(h) > 0 {
 			_ = writeMessage(ctx, nil, ch, frame{headers: h})
